@@ -118,4 +118,61 @@ func init() {
 		},
 		Stubs: ctlStubs, Assumptions: stepAssume, OutsideClaim: stepOutside,
 	})
+
+	const (
+		yOwnerDims = 1 << iota
+		yPause
+		yDeleting
+		yStaleCache
+		yRevDims
+		yUndefaulted
+		yHealthDims
+		yOrphanRevs
+	)
+	const (
+		nC10 = 1 << iota
+		nC11
+		nC15
+	)
+	syncBounds := func(a []int) string {
+		return fmt.Sprintf("one sync(key) from a world with <=%d pods at distinct ordinals of [0,%d], replicas in [0,%d], <=%d delete slots, options=%#x", a[0], a[1]+a[2], a[1], a[2], a[3])
+	}
+	syncRun := func(name string, q, t []int, asserts, covers []string) runSpec {
+		return runSpec{Name: name, Pkg: pkgCtl, Func: "VH_Sync", Quick: q, Thorough: t, Bounds: syncBounds, Asserts: asserts, Covers: covers}
+	}
+	register(&spec{
+		ID: "C10", Title: "The controller touches only what it owns; adoption needs a fresh confirmation",
+		Runs: []runSpec{
+			syncRun("pods", []int{1, 1, 0, yOwnerDims | yStaleCache | yDeleting, nC10}, []int{2, 2, 0, yOwnerDims | yStaleCache | yDeleting, nC10},
+				[]string{"only unowned pods are adopted", "adoption only after an uncached read confirmed the set", "only pods controlled by this set are released"},
+				[]string{"adopt patch", "release patch", "status written after claiming"}),
+			syncRun("revisions", []int{1, 1, 0, yRevDims | yOrphanRevs | yStaleCache, nC10}, []int{1, 1, 0, yRevDims | yOrphanRevs | yStaleCache | yDeleting, nC10},
+				[]string{"revisions controlled by another owner are never written"},
+				[]string{"write on a listed revision"}),
+		},
+		Stubs: ctlStubs,
+		Assumptions: []string{"the fake API server applies owner-reference patches by recognising the two patch shapes the controller sends", "getPatch/ApplyRevision models as in C03"},
+		OutsideClaim: []string{"more than the bounded number of pods/revisions", "arbitrary label keys and names (fixed constants / finite shapes)"},
+	})
+	register(&spec{
+		ID: "C11", Title: "Deleted and paused sets are left alone, and a pause is lossless",
+		Runs: []runSpec{
+			syncRun("sync", []int{1, 2, 1, yPause | yDeleting | yOwnerDims | yOrphanRevs, nC11}, []int{2, 2, 1, yPause | yDeleting | yOwnerDims | yHealthDims | yOrphanRevs, nC11},
+				[]string{"a paused set is not written at all", "no pod or claim write for a set being deleted"},
+				[]string{"paused set reconciled", "deleting set reconciled"}),
+		},
+		Stubs: ctlStubs,
+		Assumptions: []string{"getPatch/ApplyRevision models as in C03"},
+		OutsideClaim: []string{"the resume-and-converge half of the statement reduces to C02 because a paused reconcile writes nothing and the controller keeps no state (cross-reference)"},
+	})
+	register(&spec{
+		ID: "C15", Title: "No admitted object can crash the controller",
+		Runs: []runSpec{
+			syncRun("sync", []int{1, 2, 1, yUndefaulted | yHealthDims, nC15}, []int{2, 2, 1, yUndefaulted | yHealthDims, nC15},
+				[]string{"reconcile never panics"}, []string{"reconcile returned"}),
+		},
+		Stubs: ctlStubs,
+		Assumptions: []string{"replicas and revisionHistoryLimit are non-nil (the CRD schema requires/defaults them)", "getPatch/ApplyRevision models as in C03"},
+		OutsideClaim: []string{"huge replica counts (allocation)", "arbitrary template content", "a nil selector (the CRD requires the field)"},
+	})
 }
